@@ -131,6 +131,23 @@ def run(pid, tier, seed):
             import topo_checks
             groups.append((dict(topo_checks.CFG), [topo_checks.removal_scenario("node-removed-in-flight-%d" % k) for k in range(2)], "removal", None))
             specs["removal"] = dict(spec="TopoTrace", cfgfile="TopoTrace.cfg", par=1)
+        if pid in ("C01", "C09"):
+            # a client that does not read (client-side back-pressure): replies parked in the proxy's outbound buffer while
+            # more requests (and QUIT) arrive; more than iovMax reply segments queued behind a large one
+            import raw_checks
+            sq = [raw_checks.slow_reader_quit_scenario("slow-reader-quit-1"), raw_checks.slow_reader_quit_scenario("slow-reader-noquit", quit=False),
+                  raw_checks.slow_reader_quit_scenario("slow-reader-quit-2", bigsize=450000, nslow=2)]
+            if not q:
+                sq += [raw_checks.slow_reader_quit_scenario("slow-reader-quit-%d" % k, bigsize=sz, nslow=ns, quit=qq, drains=dr)
+                       for k, (sz, ns, qq, dr) in enumerate([(1500000, 1, True, 6), (500000, 3, True, 2), (600000, 2, False, 4), (3000000, 1, True, 10)], 3)]
+            groups.append((dict(raw_checks.BP_CFG_MID), sq, "slowq", None))
+            specs["slowq"] = dict(spec="RawTrace", cfgfile="RawTrace.cfg", par=4)
+            cb = [raw_checks.client_backlog_scenario("client-backlog-1")]
+            if not q:
+                cb += [raw_checks.client_backlog_scenario("client-backlog-2", bigsize=3000000, small=4000),
+                       raw_checks.client_backlog_scenario("client-backlog-3", bigsize=400000, small=1500)]
+            groups.append((dict(raw_checks.BP_CFG_MID), cb, "cbacklog", None))
+            specs["cbacklog"] = dict(spec="OrderTrace", cfgfile="OrderTrace.cfg", par=2)
         if pid == "C10":
             # the same order requirement with the node not reading: the proxy's outbound buffer for the node spills
             # beyond its static part and drains piecewise while the client keeps sending (8 KB socket buffers)
@@ -186,6 +203,8 @@ def run(pid, tier, seed):
                     offenders = {x["c"] for x in _stims(sc) if x["op"] == "send" and any(r["k"] == "bad" for r in x["reqs"])} if sc else set()
                     if offenders and v.get("c") and v["c"] not in offenders:
                         v = dict(v, prop="C12", code="other-connection-disturbed:" + v["code"])
+                if tag == "cbacklog" and v["code"] in ("replies-missing", "replies-out-of-step"):
+                    v = dict(v, prop=pid, code="slow-reader:" + v["code"])
                 if tag in ("bp", "bp2") and (v["code"].startswith("request-") or v["code"] == "malformed-request-forwarded"):
                     v = dict(v, prop="C10", code="request-stream-to-node-corrupted:" + v["code"])
                 if v["prop"] == pid or v["prop"] == "DEAD":
@@ -209,6 +228,7 @@ def replay(pid, payload):
     try:
         ops = {x["op"] for x in _stims(payload["scenario"])}
         nreq = sum(len(x["reqs"]) for x in _stims(payload["scenario"]))
+        backlog = nreq > 1000 and "pause" in ops
         kw = dict(spec="TopoTrace", cfgfile="TopoTrace.cfg") if ops & {"topo", "refresh"} else \
             dict(spec="OrderTrace", cfgfile="OrderTrace.cfg") if nreq > 1000 else \
             dict(spec="RawTrace", cfgfile="RawTrace.cfg") if ops & {"npause", "nreadsome"} else {}
@@ -217,6 +237,8 @@ def replay(pid, payload):
         for v in r["viol"]:
             if ops & {"npause"} and (v["code"].startswith("request-") or v["code"] == "malformed-request-forwarded"):
                 v = dict(v, prop="C10")
+            if backlog and v["code"] in ("replies-missing", "replies-out-of-step"):
+                v = dict(v, prop=pid)
             if v["prop"] in (pid, "DEAD"):
                 out.append(v)
         return out
